@@ -62,6 +62,9 @@ Verdict(o) ==
     \* an empty reference ("" or "#") needs no document at all: no request is acceptable
     c12      |-> IF o.outcome = "noload"
                  THEN (IF o.ref.segs = <<>> /\ o.ref.ptr = <<>> /\ o.ref.scheme = "" THEN "pass" ELSE "fail")
+                 \* second hop (the base is an intermediate document, already fetched): no further request is
+                 \* right exactly when the reference designates that very document
+                 ELSE IF o.outcome = "noload2" THEN (IF SameUrl(o.want, o.base) THEN "pass" ELSE "fail")
                  ELSE IF o.outcome # "loaded" THEN "fail"
                  ELSE IF SameUrl(o.got, o.want) /\ ~o.got.hasfrag THEN "pass" ELSE "fail" ]
 
